@@ -38,6 +38,8 @@ def unparse(t) -> str:
         return f"{h}({unparse(t[1])}, {unparse(t[2])})"
     if h == "if":
         return f"({unparse(t[2])} if {unparse(t[1])} else {unparse(t[3])})"
+    if h == "chain":
+        return f"({unparse(t[3])} {t[1]} {unparse(t[4])} {t[2]} {unparse(t[5])})"
     return f"({unparse(t[1])} {h} {unparse(t[2])})"
 
 
@@ -133,6 +135,9 @@ def rand_expr(rng: random.Random, depth: int) -> str:
         return f"{rng.choice(['min', 'max'])}({rand_expr(rng, depth - 1)}, {rand_expr(rng, depth - 1)})"
     if r < 0.38:
         return f"({rand_expr(rng, depth - 1)} if {rand_expr(rng, depth - 1)} else {rand_expr(rng, depth - 1)})"
+    if r < 0.45:      # chained comparison, operators mixed
+        return (f"({rand_expr(rng, depth - 1)} {rng.choice(OPS[6:])} {rand_expr(rng, depth - 1)} "
+                f"{rng.choice(OPS[6:])} {rand_expr(rng, depth - 1)})")
     op = rng.choice(OPS) if rng.random() < 0.5 else rng.choice(["+", "*"])
     if op == "**":
         return f"({rand_expr(rng, depth - 1)} ** {rng.choice(['0', '1', '2'])})"
@@ -265,6 +270,30 @@ def check(tier: str) -> int:
         for key, what, rep in r["viol"]:
             run.violation(key, what, rep)
     run.evaluations += m
+    # HISTORY: the signature of an expression does not depend on what was normalised before in the process -- in particular
+    # not on an unusually deep expression (a generated ladder of 120 nested conditionals, a 150-level parenthesised chain)
+    pairs = [("x + y", "y + x"), ("(x * y) + 2", "2 + (y * x)"), ("abs(x + y) * 3", "3 * abs(y + x)"), ("(x + 1) * (y + 2)", "(2 + y) * (1 + x)")]
+    before = [(sig(a), sig(b)) for a, b in pairs]
+    ladder = "0"
+    for i in range(120):
+        ladder = f"({i} if x == {i} else {ladder})"
+    deep = "x"
+    for i in range(150):
+        deep = f"(({deep}) * 1 + y)" if i % 2 else f"(-({deep}))"
+    for d in (ladder, deep):
+        try:
+            sig(d)
+        except Exception:      # a too-deep expression may be refused; what matters is what happens AFTERWARDS
+            pass
+    after = [(sig(a), sig(b)) for a, b in pairs]
+    run.evaluations += len(pairs)
+    for (a, b), bf, af in zip(pairs, before, after):
+        if af != bf or af[0] != af[1]:
+            run.violation("history:after-deep-expression", f"after a deeply nested expression was normalised in the process, {a!r} / {b!r} get signatures "
+                          f"{'that differ from each other' if af[0] != af[1] else 'other than before'}", {"expr": a, "other": b})
+        bad = check_expr(a)
+        if bad:
+            run.violation("history:after-deep-expression:value", bad, {"expr": a})
     run.extra["trees_exhaustive"] = n
     run.extra["sampled_beyond_bound"] = m
     run.sample({"tree": "((x + y) * (y + x))", "signature": sig("((x + y) * (y + x))")})
